@@ -86,6 +86,7 @@ def run(res):
                 'plus mutated (malformed) text, each evaluated on %d messages simplified and unsimplified and printed; '
                 'non-trivial = accepted expression containing a list, exclusion, bracket or argument part; distinct by text' % len(uni))
     doc_check(res, rnd, uni, imsgs, smsgs)
+    session_filters(res, rnd)
     known_findings(res, uni, imsgs)
 
 
@@ -175,6 +176,24 @@ def doc_check(res, rnd, uni, imsgs, smsgs):
         ex = {1: '(*)', 2: '(!*)', 3: '(*)'}[sh]
         res.disagree('documented meaning and tool differ on a zero-argument message: %s' % SHAPES[sh], ex, 'Doc.denote', 'matcher.parse(..).simplify().matches',
                      sig={'call_site': 'ArgsMatcherList.simplify', 'shape': SHAPES[sh]}, theorem='C05_args_star_refuted_doc / C05_args_excl_star_refuted')
+
+
+def session_filters(res, rnd):
+    """The matcher as the user gets it inside a session: filters with connection names and quoted strings given as -f and typed
+    as commands, colour on and off (the connection part is compared with the connection's name as the tool holds it)."""
+    import cmdgen
+    import sessioncheck
+    n = 60 if res.tier == 'quick' else 2000
+    cases = []
+    for _ in range(n):
+        cfg = [rnd.choice(['A: ', 'B:', 'A: wl_registry', '.bind ! B:', 'B: .get_registry, A: .sync', '("My  App")', '.set_title("My  App")', None]),
+               None, rnd.choice([0, 1]), 1, 0]
+        cases.append(sessioncheck.build_case(rnd, n_events=rnd.choice([20, 40]), config=cfg, chatter=0.02, n_conns=rnd.choice([2, 3]),
+                                             cmds=lambda r: r.choice(['list A:', 'list ("My  App")', 'filter B: ', 'list .set_title("My  App") ~ 3',
+                                                                      'filter ! ("My  App")', 'list (title="tab\there")', cmdgen.mixed(r, (3, 1, 3, 1, 0))]),
+                                             cmd_rate=0.2))
+    sessioncheck.run_cases(res, cases, lambda cat: cat.startswith('out.') or cat.startswith('final.ctrl'), 'C05 (matchers inside a session)',
+                           theorem='C05_main_any_layout (model of the session)', nontrivial=lambda c, m: False, kernel_sample=4)
 
 
 def known_findings(res, uni, imsgs):
